@@ -453,6 +453,7 @@ def run(ctx):
                 "focus(hi,1), focus(lo,2), keyboard takeover(lo), release, run-all} - volumes include -0.0 and int 10 (equal to 0.0 / 10.0), device lists "
                 "agree on the identifier and differ in the name (renamed, unnamed); (b'') start followed by every sequence of length <= %d ending in "
                 "run-all over {error(hi), error(lo), post(hi), start, stop, close, takeover(lo), release, run-all} on both loops; "
+                "(b3) every ordered pair (a, b) of the 5 play statuses / 5 volumes / 5 device lists / 3 focus states reported as a, b, a and drained; "
                 "(c) %d random sequences of length 4..16 over the full alphabet (post/error by any protocol (real MrpPushUpdater.state_updated) with 5 statuses differing in one field each, start, stop, "
                 "close, takeover/release of push and/or keyboard by any protocol, volume/output-device/focus dispatch (5/5/3 values), "
                 "run-one (stepped loop only), run-all), random configuration, half on each loop.  distinct = (configuration, loop mode, sequence); "
@@ -508,6 +509,17 @@ def run(ctx):
                 continue
             for manual in (False, True):
                 one(cfg, [["Start"]] + list(seq), manual, "exhaustive-errors-len%d" % length)
+    # (b3) value equality: every ordered pair of values of each kind, reported one after the other
+    # by the active protocol in the steady regime - the listener must be called iff the two differ in any field
+    cfg = EXH_CFGS[0]
+    r0 = cfg["protos"][0][0]
+    for a in range(NSTATUS):
+        for b in range(NSTATUS):
+            one(cfg, [["Start"], ["Post", r0, a], ["Post", r0, b], ["Post", r0, a], ["RunAll"]], bool((a + b) % 2), "value-pairs")
+    for kind, n in (("Vol", len(VOL_VALUES)), ("Dev", len(DEV_VALUES)), ("Focus", 3)):
+        for a in range(n):
+            for b in range(n):
+                one(cfg, [[kind, r0, a], [kind, r0, b], [kind, r0, a], ["RunAll"]], bool((a + b) % 2), "value-pairs")
     ctx.exhaustive = True
     for i in range(nrand):
         cfg = rand_cfg(ctx.rng)
